@@ -437,6 +437,10 @@ func (app *App) blockEnder() blockEnder {
 	return func(req RequestEndBlock) ResponseEndBlock {
 		defer app.handlePanic()
 
+		// the block's transactions are done: the block-end hooks write state unmetered (with a finite block gas
+		// limit that the transactions had used up, every write here failed and the validator hook ended the process)
+		app.Context.deliver.EndMetering()
+
 		// a CheckTx since the last delivered transaction may have left the shared stores aimed
 		// at the check state
 		app.Context.Action(&app.header, app.Context.deliver)
